@@ -158,6 +158,8 @@ class FileProxy:
         return self._hub.emit("read", self._target, None, lambda: self._f.readline(*a))
 
     def close(self):
+        if getattr(self._f, "closed", False):
+            return self._f.close()  # closing a closed file reaches no operating system: not an I/O call
         return self._hub.emit("close", self._target, None, self._f.close)
 
     def __iter__(self):
@@ -233,8 +235,42 @@ class _OsProxy:
         self._hub = hub
 
     def fsync(self, fd):
-        target = self._hub.fd_target.get(fd, "other")
+        target = self._hub.fd_target.get(fd) or self._hub.classify(fd)
         return self._hub.emit("fsync", target, None, lambda: _os.fsync(fd))
+
+    def _fd_target(self, fd):
+        t = self._hub.fd_target.get(fd)
+        if t is None:
+            t = self._hub.classify(fd)  # via /proc/self/fd
+        return t
+
+    def fdatasync(self, fd):
+        return self._hub.emit("fsync", self._fd_target(fd), None, lambda: _os.fdatasync(fd))
+
+    def write(self, fd, data):
+        return self._hub.emit("write", self._fd_target(fd), len(data), lambda: _os.write(fd, data))
+
+    def pwrite(self, fd, data, offset):
+        return self._hub.emit("write", self._fd_target(fd), len(data), lambda: _os.pwrite(fd, data, offset))
+
+    def writev(self, fd, buffers):
+        return self._hub.emit("write", self._fd_target(fd), None, lambda: _os.writev(fd, buffers))
+
+    def ftruncate(self, fd, length):
+        return self._hub.emit("truncate", self._fd_target(fd), length, lambda: _os.ftruncate(fd, length))
+
+    def truncate(self, path, length):
+        t = self._fd_target(path) if isinstance(path, int) else self._hub.classify(path)
+        return self._hub.emit("truncate", t, length, lambda: _os.truncate(path, length))
+
+    def posix_fallocate(self, fd, offset, length):
+        return self._hub.emit("truncate", self._fd_target(fd), ("fallocate", offset, length), lambda: _os.posix_fallocate(fd, offset, length))
+
+    def fdopen(self, fd, *a, **kw):
+        hub = self._hub
+        target = hub.classify(fd)
+        f = hub.emit("open", target, (a[0] if a else kw.get("mode", "r")), lambda: _os.fdopen(fd, *a, **kw))
+        return FileProxy(hub, f, target)
 
     def unlink(self, path, *a, **kw):
         return self._hub.emit("unlink", self._hub.classify(path), None, lambda: _os.unlink(path, *a, **kw))
